@@ -162,6 +162,30 @@ def run(ctx, rep, tier):
             else:
                 rep.ok("C03.a", ACT, key)
     rep.floor("C03.a", 40)
+    # ------------------------------------------------------------------ C03.o an on-demand buffer is allocated only when a byte is stored (F-116)
+    rep.rule("C03.o", "append templates allocate an on-demand buffer inside the else-arm of the capacity test, never in front of it: on the overflow "
+                      "path nothing is written, so a buffer allocated there would be handed to the client uninitialised (a terminated string "
+                      "without room for a single byte overflows on its first append)")
+    n_o = 0
+    for cl in ("AppendTo", "AppendCharTo"):
+        fp = E.enumerate(ACT, classes={"action": cl})
+        for p in fp.paths:
+            if p.end and p.end[0] == "raise":
+                continue
+            v = p.valuation()
+            evs = [e for e in events_of(fp.lines(p)) if e.kind != "COMMENT"]
+            mallocs = [i for i, e in enumerate(evs) if e.kind == "MALLOC"]
+            if not mallocs:
+                continue
+            n_o += 1
+            g = next((i for i, e in enumerate(evs) if e.kind == "GUARD_CAP"), None)
+            els = next((i for i, e in enumerate(evs) if e.kind == "ELSE"), None)
+            ok = g is not None and els is not None and all(i > els > g for i in mallocs)
+            rep.check(ok, "C03.o", ACT, f"{cl} [{pk(v)}]",
+                      "the buffer is allocated in front of the capacity test: when the append overflows (a terminated str[1] always does) the "
+                      "fresh buffer is left unwritten and unterminated", extra={"lines": [i.text() for i in fp.lines(p)]})
+    if n_o < 8:
+        raise AnalysisError(f"C03.o: only {n_o} allocating append paths (floor 8)")
     # any other template that writes [counter++] must be one of the two classes above
     for cl in model.concrete_subclasses("Action"):
         if cl in ("AppendTo", "AppendCharTo", "Action"):
@@ -587,7 +611,13 @@ def check_append_path(evs, v):
         probs.append("terminated string: NUL terminator must be written at [counter] right after the increment")
     if not want_term and len(ws) != 1:
         probs.append("unterminated/raw output: exactly one write expected")
-    if any(e.kind not in ("WRITE", "COUNTER_OF", "RAWVIEW", "APPEND_SPLIT") for e in body):
+    # an on-demand allocation (null test + malloc) may open the else-arm: it has to precede the first write (C03.e decides that it does
+    # whenever the pointer may be NULL; C03.o that it stands here and not in front of the capacity test)
+    first_w = next((i for i, e in enumerate(body) if e.kind == "WRITE"), len(body))
+    if any(e.kind in ("NULLGUARD", "MALLOC") for e in body[first_w:]):
+        probs.append("the on-demand allocation stands behind the byte write")
+    if any(e.kind not in ("WRITE", "COUNTER_OF", "RAWVIEW", "APPEND_SPLIT") for e in body[first_w:]) or \
+            any(e.kind not in ("NULLGUARD", "MALLOC", "RAWVIEW") for e in body[:first_w]):
         probs.append(f"unexpected statements in the append arm: {[e.kind for e in body]}")
     # two-statement append (store at the current length, then count): the count must precede the terminator, which is written at the NEW length
     split = [i for i, e in enumerate(body) if e.kind == "APPEND_SPLIT"]
